@@ -126,6 +126,7 @@ package bttest
 //@   property C14 C20
 //@   requires req != nil
 //@   modifies s.tables[req.Name].def.ColumnFamilies, heap("F:bigtablepb.Family.Columns"), heap("T:*bigtablepb.Column")
+//@   modifies ghost(btReadEpoch), ghost(btReadRow)
 //@   ensures !old(req.Name in s.tables) ==> result0 == nil && result1 != nil && uf_grpcCode(result1) == codes.NotFound
 //@   ensures result1 != nil ==> result0 == nil
 //@   ensures result1 != nil && old(req.Name in s.tables) ==> s.tables[req.Name].def.ColumnFamilies == old(s.tables[req.Name].def.ColumnFamilies)
@@ -173,6 +174,7 @@ package bttest
 //@   property C16 C20
 //@   held t.mu none
 //@   modifies t.lastWriteNanos, heap("F:bigtablepb.Family.Columns"), heap("T:*bigtablepb.Column")
+//@   modifies ghost(btReadEpoch), ghost(btReadRow)
 //@   ensures t.lastWriteNanos == 0 || (!force && t.lastWriteNanos == old(t.lastWriteNanos))
 //@   loop 1 invariant rules != nil && fresh(rules) && held(t.mu) == 2
 //@   loop 1 invariant frameOld(heap("Md:map[string]*adminpb.GcRule"), heap("Mv:map[string]*adminpb.GcRule"))
